@@ -56,7 +56,7 @@ type kase struct {
 func TestProp(t *testing.T) {
 	env := vh.GetEnv()
 	rep := vh.NewReport("C03", "exploration")
-	rep.Rule("cases enumerate (stride over) stack{yaml, direct+pass-token, direct+preflight, yaml+inject-headers} x mode{authenticated, skip-auth, skip-auth-with-cookie, preflight} x per-identity-header client layout (8 spellings each) x Connection-token trick x cookie layout x token empty/non-empty; distinct = (stack, mode, sorted header layouts, connection trick class, cookie layout) of requests that reached the backend")
+	rep.Rule("cases enumerate (stride over) stack{yaml, direct+pass-token, direct+preflight, yaml+inject-headers, yaml+skip_request_signing+flush_interval} x mode{authenticated, skip-auth, skip-auth-with-cookie, preflight} x per-identity-header client layout (8 spellings each) x Connection-token trick x cookie layout x token empty/non-empty; distinct = (stack, mode, sorted header layouts, connection trick class, cookie layout) of requests that reached the backend")
 	rep.Assume("the backend's view is Go's parsed request (header names canonicalised the way Go does); malformed client cookies are don't-care")
 
 	mk := func(name string, ps *sut.ProxyStack, err error, host string, pass, pre, inj bool) *stackKind {
@@ -69,6 +69,9 @@ func TestProp(t *testing.T) {
 	y1, e1 := sut.NewProxyStack(sut.ProxyOpts{Signer: true, Upstreams: []sut.UpstreamSpec{{Service: "yaml", From: "yaml.sso.test", AllowedEmailDomains: []string{"corp.test"}, SkipAuthRegex: []string{"^/public/"}}}})
 	y2, e2 := sut.NewProxyStack(sut.ProxyOpts{Upstreams: []sut.UpstreamSpec{{Service: "inject", From: "inject.sso.test", AllowedEmailDomains: []string{"corp.test"}, SkipAuthRegex: []string{"^/public/"},
 		InjectRequestHeaders: map[string]string{"X-Forwarded-Email": "injected@config.test", "X-Forwarded-User": "injected", "X-Custom": "cfg"}}}})
+	// an upstream that opts out of request signing (and streams): the handler chain in front of it is a different one
+	y3, e6 := sut.NewProxyStack(sut.ProxyOpts{Signer: true, Upstreams: []sut.UpstreamSpec{{Service: "unsigned", From: "unsigned.sso.test", AllowedEmailDomains: []string{"corp.test"}, SkipAuthRegex: []string{"^/public/"},
+		SkipRequestSigning: true, FlushInterval: 50 * time.Millisecond}}})
 	d1, e3 := sut.NewDirectProxy(sut.DirectOpts{Host: "direct.sso.test", PassAccessToken: true, SkipAuthRegex: []string{"^/public/"}, AllowedEmailDomains: []string{"corp.test"}, Signer: true})
 	d2, e4 := sut.NewDirectProxy(sut.DirectOpts{Host: "pre.sso.test", SkipAuthPreflight: true, SkipAuthRegex: []string{"^/public/"}, AllowedEmailDomains: []string{"corp.test"}})
 	d3, e5 := sut.NewDirectProxy(sut.DirectOpts{Host: "grp.sso.test", PassAccessToken: true, SkipAuthRegex: []string{"^/public/"}, AllowedGroups: []string{"eng", "ops", "qa"}})
@@ -78,6 +81,7 @@ func TestProp(t *testing.T) {
 		mk("yaml-inject", y2, e2, "inject.sso.test", false, false, true),
 		mk("direct-pass-token", d1, e3, "direct.sso.test", true, false, false),
 		mk("direct-preflight", d2, e4, "pre.sso.test", false, true, false),
+		mk("yaml-skip-request-signing", y3, e6, "unsigned.sso.test", false, false, false),
 	}
 	for _, s := range stacks {
 		if s == nil {
@@ -294,6 +298,11 @@ func runCase(rep *vh.Report, env vh.Env, stacks []*stackKind, i int) {
 	}
 	if conn != "" {
 		rq.Headers = append(rq.Headers, [2]string{"Connection", conn})
+		if !upgrade && r.Intn(3) == 0 {
+			// a second, harmless Connection line (before or after, the header list is shuffled below)
+			rq.Headers = append(rq.Headers, [2]string{"Connection", "keep-alive"})
+			rep.Count("requests_with_two_connection_lines", 1)
+		}
 	}
 	r.Shuffle(len(rq.Headers), func(a, b int) { rq.Headers[a], rq.Headers[b] = rq.Headers[b], rq.Headers[a] })
 
